@@ -3,5 +3,6 @@
 set -e
 cd "$(dirname "$0")"
 /venv/bin/python -c "import jax, numpy; print('jax', jax.__version__, 'numpy', numpy.__version__)"
-mkdir -p evidence replays
+mkdir -p evidence replays .cache
+/venv/bin/python -c "import sys; sys.path.insert(0,'.'); from gtv import leancheck; r=leancheck.status(); print('lean lemma library:', 'ok' if r['ok'] else 'FAILED', r['wall_s'], 's'); sys.exit(0 if r['ok'] else 1)"
 echo setup ok
